@@ -122,6 +122,8 @@ func c01(c *core.Ctx, r *core.Report) {
 	treeKeyRule(c, r, "R01.seenkey", "flows through call chains that differ only in the merged frames are lost")
 	apGrammarRule(c, r, "R01.apgrammar", "analysis/taint")
 	ensureRule(c, r, "R01.ensure", "analysis/taint", "Visitor.Visit", 8)
+	stopsRule(c, r, "R01.stops", "analysis/taint", 5)
+	edgeLoopRule(c, r, "R01.edgeloop", "analysis/taint", "Visitor.Visit", 8)
 	boundsRule(c, r, "R01.bound", func(fn *ssa.Function, rel string) bool { return rel == "analysis/dataflow" || rel == "analysis/taint" },
 		"the guarded summary edge is not created and the flow through it is not reported")
 	memoRule(c, r, "R01.memo", func(fn *ssa.Function, rel string) bool { return rel == "analysis/taint" }, "stale traversal state hides flows")
